@@ -124,15 +124,47 @@ class Ctx:
 
 class Contract:
     def __init__(self, qname, prop, pre=None, post=None, assigns=None, safety=(), use=(), signature=None, name=None,
-                 canary=True, unroll=None, setup=None, max_depth=None, name_locals=0, safety_via=None, relational=(), frame=None, on_call=None, ret_model=None, assumed=False, lambda_ordinal=None, slice_loop=None, prefix_loop=None, split_heap_ifs=False):
+                 canary=True, unroll=None, setup=None, max_depth=None, name_locals=0, safety_via=None, relational=(), frame=None, on_call=None, ret_model=None, assumed=False, lambda_ordinal=None, slice_loop=None, prefix_loop=None, split_heap_ifs=False, var_lambda=None):
         self.qname = qname; self.prop = prop; self.pre = pre; self.post = post; self.assigns = assigns
         self.safety = set(safety); self.use = list(use); self.signature = signature
-        self.name = name or qname; self.name_locals = name_locals; self.safety_via = safety_via; self.relational = list(relational); self.frame = frame; self.on_call = on_call; self.ret_model = ret_model; self.assumed = assumed; self.lambda_ordinal = lambda_ordinal; self.slice_loop = slice_loop; self.prefix_loop = prefix_loop; self.split_heap_ifs = split_heap_ifs; self.canary = canary; self.unroll = unroll; self.setup = setup; self.max_depth = max_depth
+        self.name = name or qname; self.name_locals = name_locals; self.safety_via = safety_via; self.relational = list(relational); self.frame = frame; self.on_call = on_call; self.ret_model = ret_model; self.assumed = assumed; self.lambda_ordinal = lambda_ordinal; self.slice_loop = slice_loop; self.prefix_loop = prefix_loop; self.split_heap_ifs = split_heap_ifs; self.var_lambda = var_lambda; self.canary = canary; self.unroll = unroll; self.setup = setup; self.max_depth = max_depth
 
     def applies(self, d, eng):
         return self.signature is None or self.signature in d['type']['qualType']
 
     def find_decl(self, eng):
+        if self.var_lambda is not None:
+            # the lambda that initialises the entry called `var_lambda` of the global table `qname` (a VarDecl)
+            vds = [d for d in eng.ast.by_id.values() if d.get('kind') == 'VarDecl' and d.get('name') == self.qname and any('kind' in c for c in d.get('inner', []))]
+            if len(vds) != 1: raise Unsupported('contract %s: %d definitions of the table %s' % (self.name, len(vds), self.qname))
+            found = []
+            def visit(x):
+                if not isinstance(x, dict): return
+                if x.get('kind') in ('CXXConstructExpr', 'CXXTemporaryObjectExpr', 'CXXFunctionalCastExpr'):
+                    inner = x.get('inner', [])
+                    def first_string(y):
+                        if not isinstance(y, dict): return None
+                        if y.get('kind') == 'StringLiteral': return y.get('value', '').strip('"')
+                        for c in y.get('inner', []):
+                            r = first_string(c)
+                            if r is not None: return r
+                        return None
+                    def lam(y):
+                        if not isinstance(y, dict): return None
+                        if y.get('kind') == 'LambdaExpr': return y
+                        for c in y.get('inner', []):
+                            r = lam(c)
+                            if r is not None: return r
+                        return None
+                    if inner and first_string(inner[0]) == self.var_lambda:
+                        for a in inner[1:]:
+                            l = lam(a)
+                            if l is not None: found.append(l)
+                for c in x.get('inner', []): visit(c)
+            visit(vds[0])
+            if len(found) < 1: raise Unsupported('contract %s: no entry named %s in %s' % (self.name, self.var_lambda, self.qname))
+            rec = found[0]['inner'][0]
+            return next(c for c in rec['inner'] if c.get('kind') == 'CXXMethodDecl' and c.get('name') == 'operator()')
         ds = [d for d in eng.ast.find_functions(self.qname) if self.applies(d, eng)]
         if len(ds) != 1:
             raise Unsupported('contract %s: %d matching definitions in the current tree' % (self.name, len(ds)))
@@ -169,7 +201,10 @@ class Contract:
         fr_spec = self.frame(C) if self.frame else ([(k, None) for k in (self.assigns or [])])
         for (key, refs) in fr_spec:
             if key == '*':
-                eng.havoc_all(st); continue
+                kept = {k: eng.harr(st, k, z3.ArraySort(I, eng.key_sort(k))) for k in (refs or [])}      # ('*', [keys to keep])
+                eng.havoc_all(st)
+                for k, a_ in kept.items(): st.heap[k] = a_
+                continue
             srt = eng.key_sort(key) if not key.startswith('vec.data.') else None
             if key.startswith('vec.data.'):
                 arr = eng.harr(st, key, None)
